@@ -115,16 +115,6 @@ Proof.
   destruct (prga_go s1 i1 j1 b) as [o2 [[s2 i2] j2]]. reflexivity.
 Qed.
 
-(* a sequence of XORKeyStream calls on one cipher object: all the bytes produced, final state *)
-Fixpoint rc4go_stream (st : rc4st) (chunks : list (list N)) : list N * rc4st :=
-  match chunks with
-  | [] => ([], st)
-  | c :: r =>
-      let '(o1, st1) := rc4go_xks st c in
-      let '(o2, st2) := rc4go_stream st1 r in
-      (o1 ++ o2, st2)
-  end.
-
 Lemma rc4go_xks_nil st : rc4go_xks st [] = ([], st).
 Proof. destruct st. reflexivity. Qed.
 
